@@ -260,6 +260,38 @@ func c15Run(c c15in) func(w *World) []Violation {
 	}
 }
 
+// c15TimeoutAfterRedeploy: a service is redeployed onto the same target address with another target timeout; a target
+// that stays silent must be given up after the timeout of the deployment in force.
+func c15TimeoutAfterRedeploy(w *World) []Violation {
+	var vs []Violation
+	add := func(sig, d string) { vs = append(vs, Violation{"C15", sig, "redeploy onto the same target with another target timeout: " + d}) }
+	tg := w.AddTarget("ftsame:80")
+	tg.Responder = c15Responder
+	for i, to := range []time.Duration{vTargetTO, 1700 * time.Millisecond, 2900 * time.Millisecond, 900 * time.Millisecond} {
+		a := deployArgs("fsame", []string{"ftsame:80"}, []string{"fsame.example.com"}, nil)
+		a.TargetOptions.ResponseTimeout = to
+		if r := w.Deploy(a); r.Err != nil {
+			add("redeploy-failed", r.Err.Error())
+			return vs
+		}
+		t0 := w.Now()
+		o := w.Do(ReqSpec{Host: "fsame.example.com", Path: "/x", Header: [][2]string{{"X-Fault", "r=cl;k=0;f=stall;d=0"}}})
+		if o.Status != 504 {
+			add(fmt.Sprintf("header-phase-silence-not-504 got=%d", o.Status), fmt.Sprintf("deployment %d (timeout %v): %s", i, to, o.Summary()))
+		} else if el := o.End - t0; el != to {
+			add("504-not-at-target-timeout after-redeploy-of-same-target", fmt.Sprintf("deployment %d: answered after %v, the target timeout in force is %v", i, el, to))
+		}
+		// a response arriving just inside the timeout is delivered
+		t0 = w.Now()
+		o = w.Do(ReqSpec{Host: "fsame.example.com", Path: "/x", Header: [][2]string{{"X-Fault", fmt.Sprintf("r=cl;k=1073741824;f=none;d=%d", (to - 100*time.Millisecond).Milliseconds())}}})
+		if o.Status != 200 {
+			add(fmt.Sprintf("complete-response-not-delivered got=%d", o.Status), fmt.Sprintf("deployment %d (timeout %v): first byte after %v", i, to, to-100*time.Millisecond))
+		}
+	}
+	w.Remove("fsame")
+	return vs
+}
+
 func c15Offsets(raw []byte, tier string) []int {
 	he := hdrEnd(raw)
 	seen := map[int]bool{}
@@ -343,6 +375,7 @@ func c15Cases(tier string) []ECase {
 			addc(c15in{svc: si, resp: "cl", k: 30, fault: "close", delay: 500 * time.Millisecond, drain: d})
 		}
 	}
+	cases = append(cases, ECase{Name: "redeploy onto the same target with another target timeout", Class: "timeout-after-redeploy", Run: c15TimeoutAfterRedeploy})
 	return cases
 }
 
@@ -352,7 +385,7 @@ func checkC15(t *testing.T, job *Job, res *Result) {
 		tier = job.Replay.Tier
 	}
 	res.Engine = "F"
-	res.Rule = "fault points: for 4 scripted responses (Content-Length body, 3-chunk body, 204, 100kB body) EVERY byte offset of the header block (and chunk boundaries +-1, strided body offsets; all offsets of the small responses in thorough) x {close, stall forever, garbage} (after the header block: close only), dial refused, first byte just before/after the target timeout, a fault after a delay, a fault while pause/stop is draining the target; x request/response buffering {none, req, resp, both} x error pages {built-in, custom 502/504, custom without them}; each fault followed by a good request; oracle: 502/504 with the right page at the exact virtual time, or a visibly incomplete response (handler abort / short body), never a complete-looking 200; in-flight table empty afterwards"
+	res.Rule = "fault points: for 4 scripted responses (Content-Length body, 3-chunk body, 204, 100kB body) EVERY byte offset of the header block (and chunk boundaries +-1, strided body offsets; all offsets of the small responses in thorough) x {close, stall forever, garbage} (after the header block: close only), dial refused, first byte just before/after the target timeout, a fault after a delay, a fault while pause/stop is draining the target, silence after redeploys onto the same address with other target timeouts; x request/response buffering {none, req, resp, both} x error pages {built-in, custom 502/504, custom without them}; each fault followed by a good request; oracle: 502/504 with the right page at the exact virtual time, or a visibly incomplete response (handler abort / short body), never a complete-looking 200; in-flight table empty afterwards"
 	res.Bounds = "see rule"
 	runE(t, job, res, &ESpec{Prop: "C15", Setup: c15Setup, Cases: c15Cases(tier), Batch: 150})
 }
